@@ -111,6 +111,9 @@ package litefs
 // --- loops
 //@   loop 1 modifies contents(walFrameOffsets)
 //@   loop 1 invariant walFrameOffsets != nil && subIndex(walFrameOffsets, db)
+// the copy is COMPLETE: every key the range has produced is in the copy, hence (end of range) every page of the WAL index
+//@   loop 1 invariant forall p uint32 :: visited(1, p) ==> has(walFrameOffsets, p)
+//@   loop 2 invariant forall p uint32 :: has(db.wal.frameOffsets, p) ==> has(walFrameOffsets, p) [C10]
 // the index is copied under the same locks as the position (the loop changes no lock, so this is a statement about the loop entry)
 //@   loop 1 invariant sPos && sN && snapSampleLocks(gs, db) && (dbModeIs(db, DBModeWAL) ? lk == 4 : lk == 3)
 //@   loop 2 modifies class("F|os.File|*"), contents(pageData), enc.prevPgno, enc.pagesWritten, enc.n, sought, fromWal, readok, encoded, acc
